@@ -233,7 +233,8 @@ HasMap(msg) == HasMapOf(Dfs(msg))
 BadSlicesOf(dfs, W, SL) ==
   IF ~HasMapOf(dfs) THEN {}
   ELSE LET mi == MapIdxOf(dfs)  cnt == W[mi] \div dfs[mi].es  B == W[mi + 1] IN
-       {e \in 1..cnt : e > Len(SL) \/ ~SliceOK(SL[e], B)}
+       \* (entries beyond the known slices are bad; never enumerate a hostile count)
+       {e \in 1..(IF cnt > Len(SL) THEN Len(SL) + 1 ELSE cnt) : e > Len(SL) \/ ~SliceOK(SL[e], B)}
 BadSlices(msg, W, SL) == BadSlicesOf(Dfs(msg), W, SL)
 
 InitStN(n, els) == [els |-> els, failed |-> FALSE, crashed |-> FALSE, res |-> [i \in 1..n |-> Unset]]
